@@ -162,6 +162,21 @@ def records(ctx):
             fs.mask[1] = True           # singletons masked, the n-1 class kept
             fs.mask[-2] = False
         add('misid', {'s': enc(fs), 'p': common.rat(float(p))}, observe(lambda: Numerics.apply_anc_state_misid(fs, p)), 'Numerics.apply_anc_state_misid')
+    # object re-use: fold / unfold / misidentification called twice on the same object, and the object left as it was
+    for k in range(6 if ctx.quick else 36):
+        ndim = [1, 2, 3][k % 3]
+        sh = rand_shape(r3, ndim, 2, {1: 10, 2: 6, 3: 4}[ndim])
+        fs = rand_spectrum(r3, sh, folded=False, labels=rand_labels(r3, ndim), mask_mode=['single', 'random', 'corners'][k % 3])
+        ff = fs.fold()
+        p = [0.0, 0.3, 1.0][k % 3]
+        for op, obj, inp, call, site in (('fold', fs, {}, lambda: fs.fold(), 'Spectrum.fold'), ('unfold', ff, {}, lambda: ff.unfold(), 'Spectrum.unfold'),
+                                         ('misid', fs, {'p': common.rat(p)}, lambda: Numerics.apply_anc_state_misid(fs, p), 'Numerics.apply_anc_state_misid')):
+            before = enc(obj)
+            o1, o2 = observe(call), observe(call)
+            after = enc(obj)
+            add(op, dict(inp, s=before), o1, site)
+            add(op, dict(inp, s=before), o2, site + '[second call on the same object]')
+            recs.append({'id': 'unchanged-%d' % next(nid), 'op': 'unchanged', 'in': {'law': 'ObjectUnchangedBy:' + op}, 'out': {'s': before, 't': after}, 'site': site})
     # likelihood evaluation, residuals and scaling leave BOTH operands as they were (values, masks, folding, labels), also
     # when model and data carry different masks; in-place operators with a plain masked array as right operand
     for k in range(8 if ctx.quick else 48):
